@@ -131,7 +131,8 @@ OpsNow ==
                        [] nm \in {"inc", "set_position", "set_length", "inc_length", "dec_length"}
                             (* RESTRICTION: position updates are spaced >= 1 ms so the position  *)
                             (* bucket (C05) never withholds the draw request                     *)
-                            -> { ([n |-> 1] @@ BarOp(nm, b, IF dt < 1000 THEN 1000 ELSE dt)) }
+                            (* set_position also to a value beyond the length of the generated bars (3) *)
+                            -> { ([n |-> k] @@ BarOp(nm, b, IF dt < 1000 THEN 1000 ELSE dt)) : k \in (IF nm = "set_position" THEN {1, 5} ELSE {1}) }
                        [] nm = "iter" -> { ([n |-> 2] @@ BarOp(nm, b, dt)) }
                        [] nm \in {"set_message", "set_prefix", "finish_with_message", "abandon_with_message"}
                             -> { ([m |-> Shape(s, base)] @@ BarOp(nm, b, dt)) : s \in MsgShapes }
